@@ -566,8 +566,149 @@ IdentCase(n, sd) ==
        [] k = 8 -> [id |-> "id" \o ToString(n), task |-> "strong", left |-> "p(" \o Sa \o "). p(" \o Sb \o "). " \o P \o ".", right |-> "p(" \o Sb \o "). p(" \o Sa \o "). " \o P \o " :- not not " \o P \o "."]
        [] k = 9 -> [id |-> "id" \o ToString(n), task |-> "external", left |-> P \o "(X) :- q(X), X = " \o Sa \o ".", right |-> P \o "(" \o Sa \o ") :- q(" \o Sa \o ").", ug |-> ug \o " input: " \o Sb \o "."]
 
+\* ---------------------------------------------------------------- concrete syntax (C14, C15, C16): the same grammars, printed LOOSELY
+\* parentheses are put or omitted at random, so the texts exercise precedence and associativity of the parsers; whatever tree a
+\* text parses to, printing it must give text that parses to the same tree.
+LLeaves == <<"X", "Y", "1", "0", "-1", "-2", "a", "b", "#inf", "#sup", "#infimum", "#supremum", "_a", "a_B1", "N0", "10", "not", "nota">>
+LOps == <<"+", "-", "*", "/", "\\", "..">>
+RECURSIVE LTerm(_, _)
+LTerm(sd, d) ==
+  LET c == Val(sd) % 100
+      s1 == Nx(sd)
+  IN IF d = 0 \/ c < 30 THEN [s |-> Pick(s1, LLeaves), sd |-> Nx(s1)]
+     ELSE IF c < 45
+          THEN LET a == LTerm(s1, d - 1)
+                   form == Val(a.sd) % 4
+               IN [s |-> IF form = 0 THEN "-" \o a.s ELSE IF form = 1 THEN "- " \o a.s ELSE IF form = 2 THEN "-(" \o a.s \o ")" ELSE "--" \o a.s, sd |-> Nx(a.sd)]
+     ELSE LET op == Pick(s1, LOps)
+              a == LTerm(Nx(s1), d - 1)
+              b == LTerm(a.sd, d - 1)
+              pa == Val(b.sd) % 3
+              sp == IF Val(Nx(b.sd)) % 4 = 0 THEN "" ELSE " "
+              body == (IF pa = 1 THEN "(" \o a.s \o ")" ELSE a.s) \o sp \o op \o sp \o (IF pa = 2 THEN "(" \o b.s \o ")" ELSE b.s)
+          IN [s |-> IF Val(Nx(Nx(b.sd))) % 5 = 0 THEN "(" \o body \o ")" ELSE body, sd |-> Nx(Nx(Nx(b.sd)))]
+LAtom(sd, d) ==
+  LET c == Val(sd) % 100
+      s1 == Nx(sd)
+      p == Pick(s1, <<"p", "q", "_p", "p_1", "nota", "r">>)
+  IN IF c < 12 THEN [s |-> p, sd |-> Nx(s1)]
+     ELSE IF c < 18 THEN [s |-> p \o "()", sd |-> Nx(s1)]
+     ELSE IF c < 75 THEN LET a == LTerm(Nx(s1), d) IN [s |-> p \o "(" \o a.s \o ")", sd |-> a.sd]
+     ELSE LET a == LTerm(Nx(s1), d) b == LTerm(a.sd, d) IN [s |-> p \o "(" \o a.s \o ", " \o b.s \o ")", sd |-> b.sd]
+LBodyElem(sd, d) ==
+  LET c == Val(sd) % 100
+      s1 == Nx(sd)
+  IN IF c < 35 THEN LET a == LTerm(s1, d) b == LTerm(a.sd, d) IN [s |-> a.s \o " " \o Pick(b.sd, Rels) \o " " \o b.s, sd |-> Nx(b.sd)]
+     ELSE LET a == LAtom(s1, d) IN [s |-> Pick(a.sd, <<"", "", "not ", "not not ", "not  not ">>) \o a.s, sd |-> Nx(a.sd)]
+LRule(sd, d) ==
+  LET hk == Val(sd) % 100
+      h == IF hk < 50 THEN LAtom(Nx(sd), d)
+           ELSE IF hk < 70 THEN LET a == LAtom(Nx(sd), d) IN [s |-> "{" \o a.s \o "}", sd |-> a.sd]
+           ELSE IF hk < 80 THEN [s |-> "#false", sd |-> Nx(sd)]
+           ELSE [s |-> "", sd |-> Nx(sd)]
+      nb == Val(h.sd) % 4
+      b1 == LBodyElem(Nx(h.sd), d)
+      b2 == LBodyElem(b1.sd, d)
+      sep == Pick(b2.sd, <<", ", "; ", ",", " ;">>)
+      body == IF nb = 0 THEN "" ELSE IF nb = 1 THEN b1.s ELSE b1.s \o sep \o b2.s
+      arrow == IF nb = 0 /\ Val(b2.sd) % 3 # 0 /\ h.s # "" THEN "" ELSE " :- "
+  IN [s |-> h.s \o arrow \o body \o ".", sd |-> Nx(b2.sd)]
+AspSyntaxCase(n, sd) ==
+  LET r1 == LRule(sd, Depth)
+      r2 == LRule(r1.sd, Depth)
+  IN [id |-> "as" \o ToString(n), as |-> "program", text |-> IF Val(r2.sd) % 3 = 0 THEN r1.s \o " " \o r2.s ELSE r1.s]
+
+\* sigma_0: every spelling of the sorts, placeholders (function constants), prefix chains, chains of comparisons and of equal-
+\* precedence connectives, parentheses at random
+LGVars == <<"X", "Y", "_X", "X1", "V_1", "X$g", "Y$general">>
+LIVars == <<"N$i", "X$i", "N$integer", "I$", "_N$i">>
+LSVars == <<"S$s", "X$symbol">>
+RECURSIVE LIntTerm(_, _)
+LIntTerm(sd, d) ==
+  LET c == Val(sd) % 100
+      s1 == Nx(sd)
+  IN IF d = 0 \/ c < 40 THEN [s |-> Pick(s1, <<"N$i", "X$i", "I$", "1", "0", "-1", "-3", "n$i", "c$integer", "N$integer", "2">>), sd |-> Nx(s1)]
+     ELSE IF c < 52 THEN LET a == LIntTerm(s1, d - 1) form == Val(a.sd) % 3
+                         IN [s |-> IF form = 0 THEN "-" \o a.s ELSE IF form = 1 THEN "-(" \o a.s \o ")" ELSE "- " \o a.s, sd |-> Nx(a.sd)]
+     ELSE LET op == Pick(s1, IOps) a == LIntTerm(Nx(s1), d - 1) b == LIntTerm(a.sd, d - 1)
+              pa == Val(b.sd) % 3
+              body == (IF pa = 1 THEN "(" \o a.s \o ")" ELSE a.s) \o " " \o op \o " " \o (IF pa = 2 THEN "(" \o b.s \o ")" ELSE b.s)
+          IN [s |-> IF Val(Nx(b.sd)) % 4 = 0 THEN "(" \o body \o ")" ELSE body, sd |-> Nx(Nx(b.sd))]
+LGenTerm(sd, d) ==
+  LET c == Val(sd) % 100
+      s1 == Nx(sd)
+  IN IF c < 25 THEN [s |-> Pick(s1, LGVars), sd |-> Nx(s1)]
+     ELSE IF c < 60 THEN LIntTerm(s1, d)
+     ELSE IF c < 75 THEN [s |-> Pick(s1, <<"a", "b", "_a", "a_1", "c$s", "d$symbol", "g$g", "h$general", "forall_x", "nota", "andy">>), sd |-> Nx(s1)]
+     ELSE IF c < 85 THEN [s |-> Pick(s1, LSVars), sd |-> Nx(s1)]
+     ELSE IF c < 93 THEN [s |-> "#inf", sd |-> s1]
+     ELSE [s |-> "#sup", sd |-> s1]
+RECURSIVE LGuards(_, _, _)
+LGuards(sd, n, d) ==
+  IF n = 0 THEN [s |-> "", sd |-> sd]
+  ELSE LET rel == Pick(sd, Rels) t == LGenTerm(Nx(sd), d) r == LGuards(t.sd, n - 1, d)
+       IN [s |-> " " \o rel \o " " \o t.s \o r.s, sd |-> r.sd]
+LFAtomic(sd, d) ==
+  LET c == Val(sd) % 100
+      s1 == Nx(sd)
+  IN IF c < 30 THEN LET t == LGenTerm(Nx(s1), d) IN [s |-> Pick(s1, <<"p", "q", "_p", "exists_x", "nota">>) \o "(" \o t.s \o ")", sd |-> t.sd]
+     ELSE IF c < 38 THEN LET a == LGenTerm(s1, d) b == LGenTerm(a.sd, d) IN [s |-> "t(" \o a.s \o ", " \o b.s \o ")", sd |-> b.sd]
+     ELSE IF c < 46 THEN [s |-> Pick(s1, <<"r", "s()", "r">>), sd |-> Nx(s1)]
+     ELSE IF c < 88 THEN LET t == LGenTerm(s1, d)
+                             ng == IF Val(t.sd) % 10 < 6 THEN 1 ELSE IF Val(t.sd) % 10 < 9 THEN 2 ELSE 3
+                             g == LGuards(Nx(t.sd), ng, d)
+                         IN [s |-> t.s \o g.s, sd |-> g.sd]
+     ELSE IF c < 94 THEN [s |-> "#true", sd |-> s1]
+     ELSE [s |-> "#false", sd |-> s1]
+LQVars(sd) ==
+  LET pool == <<"X", "Y", "N$i", "X$i", "S$s", "I$", "X$g", "_X", "N$integer", "V_1">>
+      a == Pick(sd, pool)
+      b == Pick(Nx(sd), pool)
+      k == Val(Nx(Nx(sd))) % 4
+  IN [s |-> IF k = 0 THEN a \o " " \o b ELSE IF k = 1 THEN a \o "  " \o b \o " " \o a ELSE a, sd |-> Nx(Nx(Nx(sd)))]
+RECURSIVE LForm(_, _, _)
+LForm(sd, d, td) ==
+  LET c == Val(sd) % 100
+      s1 == Nx(sd)
+  IN IF d = 0 \/ c < 22 THEN LFAtomic(s1, td)
+     ELSE IF c < 34 THEN LET a == LForm(s1, d - 1, td) IN [s |-> IF Val(a.sd) % 2 = 0 THEN "not " \o a.s ELSE "not (" \o a.s \o ")", sd |-> Nx(a.sd)]
+     ELSE IF c < 76 THEN LET op == Pick(s1, Conns) a == LForm(Nx(s1), d - 1, td) b == LForm(a.sd, d - 1, td)
+                             pa == Val(b.sd) % 4
+                             body == (IF pa = 1 THEN "(" \o a.s \o ")" ELSE a.s) \o " " \o op \o " " \o (IF pa = 2 THEN "(" \o b.s \o ")" ELSE b.s)
+                         IN [s |-> IF pa = 3 THEN "(" \o body \o ")" ELSE body, sd |-> Nx(b.sd)]
+     ELSE LET q == IF c < 88 THEN "forall" ELSE "exists"
+              v == LQVars(s1)
+              a == LForm(v.sd, d - 1, td)
+          IN [s |-> IF Val(a.sd) % 3 = 0 THEN q \o " " \o v.s \o " " \o a.s ELSE q \o " " \o v.s \o " (" \o a.s \o ")", sd |-> Nx(a.sd)]
+LAnnotated(sd) ==
+  LET role == Pick(sd, <<"assumption", "spec", "lemma", "definition", "inductive-lemma", "spec", "assumption">>)
+      dir == Pick(Nx(sd), <<"", "", "(forward)", "(backward)", "(universal)", " ( forward ) ">>)
+      name == Pick(Mix(sd, 2), <<"", "", "[name_1]", "[_n]", "[a]", " [ lemma ] ">>)
+      f == LForm(Mix(sd, 3), Depth, 1)
+  IN [s |-> role \o dir \o name \o ": " \o f.s \o ".", sd |-> f.sd]
+LUgEntry(sd) ==
+  LET c == Val(sd) % 100 IN
+  IF c < 25 THEN [s |-> "input: " \o Pick(Nx(sd), <<"q/1", "p/0", "_p/2", "edge/10">>) \o ".", sd |-> Nx(Nx(sd))]
+  ELSE IF c < 45 THEN [s |-> "output: " \o Pick(Nx(sd), <<"p/1", "r/0", "t/2">>) \o ".", sd |-> Nx(Nx(sd))]
+  ELSE IF c < 70 THEN [s |-> "input: " \o Pick(Nx(sd), <<"n", "c", "_k", "n1">>) \o Pick(Mix(sd, 4), <<"", " -> integer", " -> i", " -> general", "->g", " -> symbol", " -> s">>) \o ".", sd |-> Nx(Nx(sd))]
+  ELSE LAnnotated(Nx(sd))
+FolSyntaxCase(n, sd) ==
+  LET k == n % 4
+      f1 == LForm(sd, Depth, 1)
+      f2 == LForm(f1.sd, Depth, 1)
+      a1 == LAnnotated(sd)
+      a2 == LAnnotated(a1.sd)
+      u1 == LUgEntry(sd)
+      u2 == LUgEntry(u1.sd)
+      u3 == LUgEntry(u2.sd)
+  IN IF k < 2 THEN [id |-> "fs" \o ToString(n), as |-> "theory", text |-> IF k = 0 THEN f1.s \o "." ELSE f1.s \o ". " \o f2.s \o "."]
+     ELSE IF k = 2 THEN [id |-> "fs" \o ToString(n), as |-> "specification", text |-> a1.s \o " " \o a2.s]
+     ELSE [id |-> "fs" \o ToString(n), as |-> "user-guide", text |-> u1.s \o " " \o u2.s \o " " \o u3.s]
+
 Case(n, sd) ==
   CASE Mode = "program" -> ProgramCase(n, sd)
+    [] Mode = "aspsyntax" -> AspSyntaxCase(n, sd)
+    [] Mode = "folsyntax" -> FolSyntaxCase(n, sd)
     [] Mode = "ident" -> IdentCase(n, sd)
     [] Mode = "extbad" -> BadCase(n, sd)
     [] Mode = "absprog" -> AbsCase(n)
